@@ -516,7 +516,15 @@ def _all_children(u):
     return out
 
 
+def r17_9(run):
+    """a filesystem service is created by TorConfig.save(): if Tor rejects that SETCONF (or the connection drops) save() must fail, so
+    that create() fails, listen() fails with that error and releases its listener - the save-completion discipline of C10 (R10.5), shared"""
+    from . import c10
+    borrow(run, c10.r10_5, 'R17.9')
+
+
 RULES = [
+    ('R17.9', 'a rejected SETCONF fails save() and therefore listen() (R10.5 borrowed)', r17_9),
     ('R17.7', 'the descriptor wait listen() depends on is keyed on this service and armed before the creating command (rules R15.1/R15.5 borrowed)', r17_7),
     ('R17.8', 'config_attributes (used to build the SETCONF during listen) does not trigger the lazy hostname-file parse', r17_8),
     ('R17.6', 'no dropped Deferred in listen(): config, bind and creation are awaited in order', r17_6),
